@@ -489,8 +489,10 @@ def run_scenario(sc):
                 break
         import ptera.probe as pp
 
-        if len(pp.global_probes):
-            viol.append(["C08.quiescent", -1, {"global_probes": len(pp.global_probes)}])
+        from .world import global_probe_list
+
+        if global_probe_list():
+            viol.append(["C08.quiescent", -1, {"global_probes": len(global_probe_list())}])
         # module globals: only ptera's own prefixed names may have been added
         extra = [k for k in vars(sysv.mod) if isinstance(k, str) and k.startswith("#")]
         if extra:
